@@ -137,7 +137,11 @@ pub fn build(sc: &Scenario) -> Built {
         .inputs
         .iter()
         .position(|i| i.issuance.is_some())
-        .map(|k| ins[k].issuance_ids())
+        .map(|k| {
+            // the ids the outputs pay to come from the reference derivation (C11's), not from the crate's issuance_ids
+            let (a, t) = crate::props::c11::ref_ids(&crate::oracle::model::from_txin(&ins[k]));
+            (AssetId::from_byte_array(a), AssetId::from_byte_array(t))
+        })
         .unwrap_or((asset_a(), asset_a()));
     let aid = |a: u8| match a {
         0 => asset_a(),
